@@ -13,20 +13,20 @@ import (
 
 // C13Case: a base case with a small or large extent, and a translation or an integer scaling.
 type C13Case struct {
-	Op      string      `json:"op"` // bool | rect | inflate | area | pip | simplify
-	Subj    Paths       `json:"subj"`
-	Clip    Paths       `json:"clip"`
-	CT      c2.ClipType `json:"ct"`
-	FR      c2.FillRule `json:"fr"`
-	Rect    RectJ       `json:"rect"`
-	Delta   float64     `json:"delta"`
-	Join    c2.JoinType `json:"join"`
-	Eps     float64     `json:"eps"`
-	Q       P           `json:"q"`
-	TX      int64       `json:"tx"`
-	TY      int64       `json:"ty"`
-	Scale   int64       `json:"scale"` // 1 = pure translation
-	Extent  int64       `json:"extent"`
+	Op     string      `json:"op"` // bool | rect | inflate | area | pip | simplify
+	Subj   Paths       `json:"subj"`
+	Clip   Paths       `json:"clip"`
+	CT     c2.ClipType `json:"ct"`
+	FR     c2.FillRule `json:"fr"`
+	Rect   RectJ       `json:"rect"`
+	Delta  float64     `json:"delta"`
+	Join   c2.JoinType `json:"join"`
+	Eps    float64     `json:"eps"`
+	Q      P           `json:"q"`
+	TX     int64       `json:"tx"`
+	TY     int64       `json:"ty"`
+	Scale  int64       `json:"scale"` // 1 = pure translation
+	Extent int64       `json:"extent"`
 }
 
 func drawC13(t *rapid.T) *C13Case {
